@@ -64,6 +64,14 @@ Lemma dup_info_witness :
             diff_apply 0 d di_A = ARet 0 (topo1 (Some "m") [("X", "c"); ("X", "b")]).
 Proof. split; [vm_compute; reflexivity|]. eexists. vm_compute. split; reflexivity. Qed.
 
+(* the same cause through the rollback: undoing [Y:b->a] patches the other "Y" *)
+Definition di_R := topo1 (Some "m") [("Y", "a"); ("Y", "b")].
+Lemma dup_info_rollback_witness :
+  keys_unique di_R && vals_u64 di_R && info_pairs_nodup di_R = true /\
+  diff_apply 0 [EAttr 0 0 (DInfo "Y" "b" "a"); EAttr 0 0 (DInfo "Z" "a" "b")] di_R =
+    ARet (-2) (topo1 (Some "m") [("Y", "b"); ("Y", "a")]).
+Proof. vm_compute. split; reflexivity. Qed.
+
 (* identical topologies with a heterogeneous distances matrix: rc = 1 *)
 Definition het_T := mkT (t_root rb_T) 1 None None [] [(true, "d")] [] [].
 Lemma hetero_witness : diff_build 0 het_T het_T = BRet 1 [ETooComplex 0 0].
